@@ -133,6 +133,18 @@ fn show_res(r: &Res) -> String {
 
 fn b01(b: bool) -> &'static str { if b { "1" } else { "0" } }
 
+/// what the signed octets claim for a family (1 IPv4, 2 IPv6, 0 AS): the regular value, united with the blocks of every
+/// additional family / extension the certificate carries
+fn claimed(s: &CertSpec, fam: u8) -> Res {
+    let base = match fam { 1 => &s.v4, 2 => &s.v6, _ => &s.asn };
+    let mut extra: Vec<(u128, u128)> = Vec::new();
+    if fam > 0 { for (afi, b) in &s.extra_fams { if *afi == fam { extra.extend(b.iter().cloned()); } } }
+    if fam == 1 { if let Some(b) = &s.extra_ip_ext { extra.extend(b.iter().cloned()); } }
+    if fam == 0 { if let Some(b) = &s.extra_as_ext { extra.extend(b.iter().cloned()); } }
+    if extra.is_empty() { return base.clone() }
+    match base { Res::Blocks(b) => { let mut v = extra; v.extend(b.iter().cloned()); Res::Blocks(v) } _ => Res::Blocks(extra) }
+}
+
 /// sig / dec are supplied by the caller (they depend on how the bytes were produced).
 pub fn facts(s: &CertSpec, sig: bool, dec: bool, kid: &[u8]) -> String {
     format!("{}:{}:{}:{}:{}:{}:{}:{}:{}:{}:{}:{}:{}:{}:{}:{}:{}:{}:{}:{}:{}",
@@ -142,7 +154,7 @@ pub fn facts(s: &CertSpec, sig: bool, dec: bool, kid: &[u8]) -> String {
         if s.ku_ca { "c" } else { "e" }, b01(s.eku_router),
         b01(s.crl_uri.is_some()), b01(s.ca_issuer.is_some()), b01(s.ca_repository.is_some()),
         b01(s.rpki_manifest.is_some()), b01(s.signed_object.is_some()), b01(s.rpki_notify.is_some()),
-        b01(s.trim), show_res(&s.v4), show_res(&s.v6), show_res(&s.asn),
+        b01(s.trim), show_res(&claimed(s, 1)), show_res(&claimed(s, 2)), show_res(&claimed(s, 0)),
         // public key algorithm: the RSA SPKIs start with the rsaEncryption AlgorithmIdentifier of length 13
         if s.spki.len() > 200 { "r" } else { "e" })
 }
@@ -339,6 +351,18 @@ pub fn generate(ctx: &mut Ctx) {
             let mut post: u64 = 0;
             let kid = if spec.spki == pool.ec_spki { pool.ec_ski.clone() } else { pool.keys[subj].ski.clone() };
             let ymd = |y: i32, m: u32, d: u32| Utc.with_ymd_and_hms(y, m, d, 0, 0, 0).unwrap().timestamp();
+            // edge stream: a resource family or extension that occurs twice, the first occurrence outside the issuer - no
+            // reader may accept such a certificate, whichever occurrence it would look at
+            if edge && level > 0 && rng.chance(1, 4) {
+                let outside32 = vec![(max_of(32) - 7, max_of(32))];
+                match rng.below(4) {
+                    0 => spec.extra_fams.push((1, outside32)),
+                    1 => spec.extra_fams.push((2, vec![(max_of(128) - 7, max_of(128))])),
+                    2 => spec.extra_ip_ext = Some(outside32),
+                    _ => spec.extra_as_ext = Some(outside32),
+                }
+                dec = false;
+            }
             match rng.below(33) {
                 0 => now = spec.not_before - 1,
                 1 => now = spec.not_before,
